@@ -832,6 +832,14 @@ where
                         break;
                     }
                     let Some(target) = m.records.get(&m.stamp).cloned() else {
+                        // Pruned by retention: nothing older is left and the call stops
+                        // here. A hole in the chain (older records exist): refused, the
+                        // vector stays on the committed state reached so far.
+                        if m.records.range(..m.stamp).next().is_some() {
+                            m.uncommitted = false;
+                            m.truncated_since_commit = false;
+                            return Err("StampMismatch");
+                        }
                         break;
                     };
                     m.restore(&target);
@@ -1224,7 +1232,10 @@ where
         let is_fault = kind.starts_with("fault_");
         let content_prop: &str = if is_fault {
             "C16,C17"
-        } else if is_rollback_kind || self.model.stored_uncertain || self.model.commits_done > 0 {
+        } else if is_rollback_kind {
+            // a rollback that lands on something else than the committed snapshot
+            "C04,C16"
+        } else if self.model.stored_uncertain || self.model.commits_done > 0 {
             "C04"
         } else if V::COMPRESSED {
             "C03,C07"
@@ -1327,7 +1338,9 @@ where
         }
 
         // --- a refused / failed request has no effect (C13; C16 for rollbacks)
-        if expected.is_err() && result.is_err() {
+        // (a refused rollback_before may have made progress: it is compared with the model,
+        // which stays on the committed state reached, not with the pre-state)
+        if expected.is_err() && result.is_err() && !matches!(op, VecOp::RollbackBefore(_)) {
             let prop = if is_fault { "C16,C17" } else if is_rollback_kind { "C16" } else { "C13" };
             let now = self.observe().ok();
             if now != pre_obs {
